@@ -16,7 +16,7 @@ THEOREMS = ["Drand.Beacon.Transition." + t for t in [
                                         'sane_run', 'sane_init', 'c07_quiet_of_reachable', 'c07_told_is_punctual', 'c07_quiet_counterexample', 'c07_quiet_of_healthy',
                                         'c07_level', 'c07_fair_tick', 'c07_fair_round', 'c07_catch_progress', 'c07_chain_continues', 'c07_round_produced',
                                         'c07_settled_any_time', 'c07_settled_partial', 'c07_no_skip', 'c07_heads_monotone',
-                                        'c07_quiet_of_sound', 'c07_fair_tick_repaired', 'c07_chain_continues_repaired', 'cx_sound']]
+                                        'c07_quiet_of_reachable_repaired', 'replace_apply', 'c07_quiet_of_sound', 'c07_fair_tick_repaired', 'c07_chain_continues_repaired', 'cx_sound']]
 TRUSTED = ["Lean 4 kernel; axioms per theorem under coverage.axioms",
            "PedersenSpec (hypothesis): kyber's resharing outputs the Lagrange combination of the dealers' reshaped shares (c07_pk_preserved is proved from that); "
            "agreement of all nodes on the dealer set under arbitrary schedules is sampled by the differential runs only",
